@@ -1660,6 +1660,7 @@ method or constructor of some type."""
             # used to propose their candidate.
             getter_candidates = {}
             found_getter_candidates = []
+            inferred_getters = []
             if prop.setter is None:
                 if prop.writable and not prop.construct_only:
                     setter = 'set_' + normalized_name
@@ -1696,6 +1697,7 @@ method or constructor of some type."""
                     found_getter_candidates.append(method.name)
                     if method.get_property is None:
                         method.get_property = prop.name
+                        inferred_getters.append(method)
                     elif method.get_property != prop.name:
                         message.warn_node(method,
                                           "Getter method '%s' for property '%s' has a "
@@ -1709,6 +1711,10 @@ method or constructor of some type."""
                     if getter_candidates[method.name] >= current_priority:
                         prop.getter = method.name
                     continue
+            # Only the candidate that was chosen is the getter of the property
+            for method in inferred_getters:
+                if method.name != prop.getter:
+                    method.get_property = None
             if len(found_getter_candidates) > 1:
                 getter_annotations = "\n".join(f"- '(getter {candidate})'" for candidate in found_getter_candidates)
                 message.warn_node(node,
